@@ -8,9 +8,10 @@ import threading
 import time
 
 import auditok.workers as W
+from auditok.io import BufferAudioSource
 from auditok.util import AudioReader
 
-from .core import DONE, SchedAbort, SchedQueue, Scheduler
+from .core import DONE, SchedAbort, SchedEvent, SchedQueue, Scheduler
 
 _install_lock = threading.Lock()
 
@@ -40,19 +41,18 @@ class SchedReader(AudioReader):
         return data
 
 
-def _faulty_close(reader):
-    """make reader.close() raise once (an I/O error reported while closing the device)."""
-    orig = reader._audio_source.close
-    state = {"raised": False}
+class FaultyCloseSource(BufferAudioSource):
+    """A source whose close() raises once (an I/O error reported while closing the device)."""
 
-    def close():
-        if not state["raised"]:
-            state["raised"] = True
-            reader.vf_close_fault_raised = True
+    vf_raised = False
+    vf_reader = None
+
+    def close(self):
+        if not self.vf_raised and self.vf_reader is not None:
+            self.vf_raised = True
+            self.vf_reader.vf_close_fault_raised = True
             raise OSError("injected close fault")
-        return orig()
-
-    reader._audio_source.close = close
+        return super().close()
 
 
 class OuterProxy:
@@ -119,11 +119,11 @@ class Installed:
     def __enter__(self):
         _install_lock.acquire()
         sched = self.sched
-        self.orig_queue = W.Queue
+        self.saved_globals = {}
         self.orig_start = W.Worker.__dict__.get("start")
         self.orig_join = W.Worker.__dict__.get("join")
         SchedQueue.current_scheduler = sched
-        W.Queue = SchedQueue
+        self._substitute_globals()
         inst = self
         real_start = threading.Thread.start
         real_join = threading.Thread.join
@@ -160,6 +160,9 @@ class Installed:
         def join(worker, timeout=None):
             st = getattr(worker, "_vf_state", None)
             if st is not None and sched.managed():
+                hook = getattr(sched, "on_join", None)
+                if hook is not None:
+                    hook(worker)
                 done = sched.join(st, may_time_out=timeout is not None)
                 if done:
                     real_join(worker, 10)
@@ -173,6 +176,38 @@ class Installed:
         if self.line_p > 0:
             self._install_lines()
         return self
+
+    def _substitute_globals(self):
+        """Whatever NAME auditok.workers uses for its FIFO queue class (Queue, SimpleQueue, an alias, `queue.Queue`
+        through the module) or for threading.Event is re-bound to the scheduler's version for the duration of the run.
+        Looked up at call time by the code under test, so nothing in /repo is edited.  The substitution is checked to
+        be live afterwards (sched.puts / gets > 0), never assumed."""
+        import queue as _q
+        import types
+
+        fifo = {_q.Queue, _q.SimpleQueue}
+
+        class _Shim(types.SimpleNamespace):
+            def __init__(self, real, **over):
+                super().__init__(**over)
+                self.__dict__["_vf_real"] = real
+
+            def __getattr__(self, name):
+                return getattr(self.__dict__["_vf_real"], name)
+
+        for name, val in list(vars(W).items()):
+            if isinstance(val, type) and val in fifo:
+                self.saved_globals[name] = val
+                setattr(W, name, SchedQueue)
+            elif val is threading.Event:
+                self.saved_globals[name] = val
+                setattr(W, name, SchedEvent)
+            elif val is _q:
+                self.saved_globals[name] = val
+                setattr(W, name, _Shim(_q, Queue=SchedQueue, SimpleQueue=SchedQueue))
+            elif val is threading:
+                self.saved_globals[name] = val
+                setattr(W, name, _Shim(threading, Event=SchedEvent))
 
     def _install_lines(self):
         mon = sys.monitoring
@@ -240,7 +275,8 @@ class Installed:
                     mon.set_local_events(self.tool, c, 0)
                 mon.register_callback(self.tool, self.event, None)
                 mon.free_tool_id(self.tool)
-            W.Queue = self.orig_queue
+            for name, orig in self.saved_globals.items():
+                setattr(W, name, orig)
             for attr, orig in (("start", self.orig_start), ("join", self.orig_join)):
                 if orig is None:
                     try:
